@@ -342,6 +342,28 @@ def run(prog, check):
         check.ob('C14.R2', '%s::class-has-a-store(%s)' % (f.key, cls), cls in seen_classes, '%s:%d' % (f.module.rel, loop.lineno),
                  'some path stores into %s' % cls if cls in seen_classes else 'no path stores into %s any more' % cls,
                  'a %s line' % cls)
+    # malformed lines are reported: what the function returns accumulates over the lines (a report is never overwritten by a later one)
+    ret_names = {r_.value.id for r_ in ast.walk(f.node) if isinstance(r_, ast.Return) and isinstance(r_.value, ast.Name)}
+    for rn_ in sorted(ret_names):
+        over = []
+        n_acc = 0
+        for st_ in ast.walk(loop):
+            if isinstance(st_, ast.AugAssign) and isinstance(st_.target, ast.Name) and st_.target.id == rn_:
+                n_acc += 1
+            elif isinstance(st_, ast.Assign) and any(isinstance(t_, ast.Name) and t_.id == rn_ for t_ in st_.targets):
+                if any(isinstance(x_, ast.Name) and x_.id == rn_ for x_ in ast.walk(st_.value)):
+                    n_acc += 1
+                else:
+                    over.append(st_)
+            elif isinstance(st_, ast.Call) and isinstance(st_.func, ast.Attribute) and st_.func.attr in ('append', 'extend') and \
+                    isinstance(st_.func.value, ast.Name) and st_.func.value.id == rn_:
+                n_acc += 1
+        if not (n_acc or over):
+            continue
+        check.ob('C14.R2', '%s::reports-accumulate(%s)' % (f.key, rn_), not over, '%s:%d' % (f.module.rel, (over[0] if over else loop).lineno),
+                 'every report about a line is added to what was reported before' if not over else
+                 '`%s` overwrites the reports collected so far: a malformed line reported earlier is dropped without a trace' % unparse(over[0])[:70],
+                 "a block with an unreadable line followed by a line with two '='")
     # a parse starts from empty classes: what the lists hold afterwards is what this text says, not what an earlier text left behind
     hdr_ = [n_ for n_ in g.nodes if n_.kind == 'for' and n_.stmt is loop]
     for cls in CLASS_LISTS + CLASS_DICTS:
@@ -634,6 +656,14 @@ def run(prog, check):
                      'lag source is the text before the marker' if ok else 'lag source is not the text before the marker',
                      'X = Y(k-1)')
     # the split is on the clean text at '='
+    # the time variable the parser supplies is `t = k`: k is the solver's own period counter and must not be definable by the block
+    # (the clause C11.R3 decides for the reserved names)
+    if not getattr(check, '_borrowing', False):
+        from ..report import Borrowed
+        from . import C11 as _c11
+        b11 = Borrowed(check, lambda rule, key: rule == 'C11.R3' and 'reserved-source(k)' in key, 'C14.R4',
+                       "a block with a line `k = 5.`: it must be refused, otherwise the supplied t = k is not the period")
+        _c11.run(prog, b11)
     check.floor('C14.R1', 10)
     check.floor('C14.R2', 8)
     check.floor('C14.R3', 5)
